@@ -322,14 +322,20 @@ func runC20Rest(c *Ctx) {
 					continue
 				}
 				nLoop++
-				// provenance of the ranged slice
-				sl := &Slicer{P: p}
+				// provenance of the ranged slice (through a private part of the wallet that fetches the list)
+				isPart := func(h *ssa.Function) bool {
+					return h != nil && h != um && len(h.Blocks) > 0 && h.Object() != nil && !h.Object().Exported() && fnPkgPath(h) == fnPkgPath(rs)
+				}
+				sl := &Slicer{P: p, ThroughReturns: isPart}
 				okSrc := false
 				var srcs []string
 				for _, o := range sl.Origins(l.OverVal) {
 					srcs = append(srcs, describeValue(o))
 					if call, ok := o.(*ssa.Call); ok && call.Call.StaticCallee() == um {
 						okSrc = true
+					} else if call, ok := o.(*ssa.Call); ok && isPart(call.Call.StaticCallee()) {
+						// the part itself: judged by what it returns (the origins that follow)
+						continue
 					} else {
 						okSrc = okSrc && isNilConst(o)
 						if !isNilConst(o) {
